@@ -125,6 +125,57 @@ def c09_groups(pl, res, groups, tier, cov, tag):
     return n_checked
 
 
+BUILTINS = {"void", "bool", "u8", "u16", "u32", "u64", "u128", "i8", "i16", "i32", "i64", "i128", "f32", "f64"}
+
+
+def _inner_name(t):
+    """the type name at the bottom of a declared field type, None for gaps and zero-length arrays (dropped by design)"""
+    while t.get("k") in ("arr", "cptr", "mptr"):
+        if t["k"] == "arr" and t.get("len") == 0:
+            return None
+        t = t["t"]
+    return t.get("n") if t.get("k") == "nm" else None
+
+
+def _inner_path(t):
+    while isinstance(t, dict) and t.get("k") in ("arr", "cptr", "mptr"):
+        t = t["t"]
+    return tuple(t["p"]) if isinstance(t, dict) and t.get("k") == "raw" and len(t.get("p", [])) > 1 else None
+
+
+def dropped_references(case, obs):
+    """C10 "never succeeds with ... a reference dropped": every field (named or `_`) that names a user type defined exactly
+    once in the input shows up in the emitted struct as a field whose type mentions that definition"""
+    where = collections.defaultdict(list)
+    for m in case["input"]["mods"]:
+        for d in m["defs"]:
+            where[d["name"]].append(tuple(m["path"] + [d["name"]]))
+        for e in m["exts"]:
+            where[e["name"]].append(tuple(m["path"] + [e["name"]]))
+    files = {tuple(f["rel"][:-3].split("/")): f.get("proj") for f in obs.get("files", [])}
+    out = []
+    for m in case["input"]["mods"]:
+        proj = files.get(tuple(m["path"]))
+        if proj is None:
+            continue
+        for d in m["defs"]:
+            if d["k"] != "type":
+                continue
+            it = proj["items"].get(d["name"])
+            if not it or it.get("k") != "struct":
+                continue
+            want = collections.Counter()
+            for f in d["fields"]:
+                n = _inner_name(f["ty"])
+                if n and n not in BUILTINS and len(where.get(n, [])) == 1:
+                    want[where[n][0]] += 1
+            have = collections.Counter(p for p in (_inner_path(f["ty"]) for f in it.get("fields", [])) if p)
+            for pth, k in want.items():
+                if have.get(pth, 0) < k:
+                    out.append(f"{'::'.join(m['path'] + [d['name']])} declares {k} field(s) of {'::'.join(pth)}, the emitted struct has {have.get(pth, 0)}")
+    return out
+
+
 def declared_missing(case, obs):
     """C10 "nothing left out": every declared definition and extern value of an accepted build is in the output"""
     files = {tuple(f["rel"][:-3].split("/")): f.get("proj") for f in obs.get("files", [])}
@@ -199,6 +250,9 @@ def rand_graphs(pid, tier, pl, res, cov):
         for c in cs:
             o = runs[0][c["id"]]
             if o["accepted"]:
+                for msg in dropped_references(c, o)[:2]:
+                    res.violation("random graph: a reference is dropped: " + msg, payload(dict(c, group="graph-random"), o),
+                                  "C10:generated-name" if c["id"] in kf_ids else None)
                 miss = declared_missing(c, o)
                 if miss:
                     res.violation(f"random graph: the build succeeded but {miss[:3]} is missing from the output",
@@ -249,6 +303,8 @@ def run_graph(pid, tier):
                 res.violation(f"non-termination error lists {got}, the unresolvable types are {want}",
                               payload(case, obs), kf_class)
         if obs["accepted"]:
+            for msg in dropped_references(case, obs)[:2]:
+                res.violation("a reference is dropped: " + msg, payload(case, obs), kf_class)
             # nothing left out: every declared item resolved, every declared function with its full signature
             reg = {tuple(e["path"]): e for e in obs.get("reg", [])}
             files = {tuple(f["rel"][:-3].split("/")): f.get("proj") for f in obs.get("files", [])}
